@@ -35,7 +35,7 @@ var importPkgs = []string{"java.util", "java.io", "org.ext.model", "org.ext.svc"
 var importNames = []string{"Widget", "Gadget", "Sprocket", "Lever", "Valve", "Gear", "Bolt", "Rivet", "Flange", "Piston", "Crank", "Shaft", "Pulley", "Spring", "Washer", "Gasket", "Écran", "Ωmega", "Ünit", "Ñandu"}
 var roles = []string{"field", "param", "local", "generic", "annotation", "new", "static-receiver", "catch", "throws", "extends", "implements", "return",
 	"static-field", "enum-constant", "method-ref", "nested-type", "static-chain", "cast", "instanceof", "array", "class-literal",
-	"multi-catch", "generic-bound", "wildcard-bound", "try-resource", "ctor-ref", "annotation-arg", "array-new", "foreach-type", "lambda-body", "field-annotation", "param-annotation"}
+	"multi-catch", "generic-bound", "wildcard-bound", "try-resource", "ctor-ref", "annotation-arg", "array-new", "foreach-type", "lambda-body", "field-annotation", "param-annotation", "anon-lambda-new", "anon-lambda-static"}
 
 // GenImportProject draws 1..maxFiles files in a small directory tree.
 func GenImportProject(t *tape.Tape, maxFiles int) []ImportFile {
@@ -151,7 +151,7 @@ func genImportFile(t *tape.Tape, cls string, pkg string) ImportFile {
 			if isIface {
 				switch role {
 				case "field", "local", "new", "static-receiver", "catch", "static-field", "enum-constant", "method-ref", "nested-type", "static-chain", "cast", "instanceof", "array", "class-literal",
-					"multi-catch", "generic-bound", "wildcard-bound", "try-resource", "ctor-ref", "annotation-arg", "array-new", "foreach-type", "lambda-body", "field-annotation", "param-annotation":
+					"multi-catch", "generic-bound", "wildcard-bound", "try-resource", "ctor-ref", "annotation-arg", "array-new", "foreach-type", "lambda-body", "field-annotation", "param-annotation", "anon-lambda-new", "anon-lambda-static":
 					role = "param"
 				}
 			}
@@ -258,6 +258,18 @@ func genImportFile(t *tape.Tape, cls string, pkg string) ImportFile {
 			add(fmt.Sprintf("    @%s", a))
 			add(fmt.Sprintf("    private String annotated%d;", i))
 		}
+	}
+	// a field initialised with an anonymous class whose last member is a lambda-valued field with an
+	// expression body: the only mention of the imported name in the file
+	for i, s := range by("anon-lambda-new") {
+		add(fmt.Sprintf("    private final Object registry%d = new Object() {", i))
+		add(fmt.Sprintf("        java.util.function.Function<Long, Object> make = x -> new %s(x);", s))
+		add("    };")
+	}
+	for i, s := range by("anon-lambda-static") {
+		add(fmt.Sprintf("    private final Object lookup%d = new Object() {", i))
+		add(fmt.Sprintf("        java.util.function.Function<String, Object> find = code -> %s.of(code);", s))
+		add("    };")
 	}
 	for i, g := range by("wildcard-bound") {
 		add(fmt.Sprintf("    private java.util.List<? extends %s> bounded%d;", g, i))
